@@ -473,6 +473,11 @@ for h in ["k_frontend_new_bytes_2x16", "k_frontend_new_bytes_3x20", "k_frontend_
                  "SamplesNotDivisibleByChannels; a declared total of 0 => InvalidTotalBytes/InvalidTotalSamples; otherwise the encoder is constructed with exactly total / (PCM frame size) PCM frames, or None when undeclared",
         stubs=["encode::Encoder::new (recorder of its `total` argument; its own validation is K-encoder_new_* / not decided)"], timeout=600)
 
+add("K-struct_decode_constant_verbatim", ["C17"], S + "k_struct_decode_constant_verbatim", tier="quick", bound="constructed CONSTANT (block of 3) and VERBATIM (2 samples) subframes; all sample values, all wasted-bit counts < 32",
+    functions=["stream::Subframe::decode"],
+    contract="Subframe::decode for CONSTANT / VERBATIM: exactly block_size (resp. samples.len()) samples, each the stored sample shifted left by wasted_bps, in order "
+             "(FIXED / LPC arms do not finish: Box<dyn Iterator> + flat_map + Vec::extend)", timeout=200)
+
 add("K-padding_roundtrip", ["C11", "C12"], M + "k_padding_roundtrip", tier="quick", bound="sizes <= 64 bytes; all stream contents and truncations",
     functions=["metadata::Padding::from_reader", "metadata::Padding::to_writer"],
     contract="PADDING: parse(size) consumes exactly size bytes (fails only on a short stream) and yields Padding{size}; serialising writes exactly size zero bytes; bytes() == size", timeout=300)
